@@ -408,6 +408,142 @@ impl FromStr for Selection {
 }
 
 
+// ---- --sort-by: Sorter::from_str (src/sorters.rs): <expression> [ASC|DESC] — the direction word (C18: an unknown direction is
+// an error; C07: DESC exactly for the word DESC; C13: the getter is the shared reader's)
+pub mod sorter_m {
+use vstd::prelude::*;
+use std::rc::Rc;
+use std::str::FromStr;
+use std::io::Read;
+use super::*;
+use std::result::Result;
+#[verifier::external_body] pub struct SorterParserError { _p: () }
+impl SorterParserError {
+    #[allow(non_snake_case)] #[verifier::external_body] pub fn UnknownOrder(t: String) -> Self { unimplemented!() }
+}
+impl From<SelectionParseError> for SorterParserError { #[verifier::external_body] fn from(e: SelectionParseError) -> Self { unimplemented!() } }
+impl From<std::io::Error> for SorterParserError { #[verifier::external_body] fn from(e: std::io::Error) -> Self { unimplemented!() } }
+//@@ item src/sorters.rs :: enum Direction
+//@@ rewrite pub_struct
+//@@ enditem
+//@@ item src/sorters.rs :: struct Sorter
+//@@ enditem
+impl Sorter {
+    pub closed spec fn g(&self) -> Rc<dyn Get> { self.sort_by }
+    pub closed spec fn desc(&self) -> bool { self.direction is Desc }
+}
+pub mod vsd {
+use vstd::prelude::*;
+// str::trim / str::to_uppercase: functions of the text (trusted; nothing else is known about them)
+pub uninterp spec fn trim_of(s: Seq<char>) -> Seq<char>;
+pub uninterp spec fn upper_of(s: Seq<char>) -> Seq<char>;
+#[verifier::external_body]
+pub fn trimmed(s: &String) -> (r: String) ensures r@ == trim_of(s@) { unimplemented!() }
+pub trait VUpper { fn vupper(&self) -> (r: String); spec fn text(&self) -> Seq<char>; }
+impl VUpper for String {
+    open spec fn text(&self) -> Seq<char> { self@ }
+    #[verifier::external_body]
+    fn vupper(&self) -> (r: String) ensures r@ == upper_of(self@) { unimplemented!() }
+}
+#[verifier::external_body]
+pub fn as_str_of(s: &String) -> (r: &str) ensures r@ == s@ { unimplemented!() }
+// two string slices with the same characters are the same value (a `match` on string literals compares values)
+pub broadcast axiom fn axiom_str_ext(a: &str, b: &str) ensures (#[trigger] a@ == #[trigger] b@) ==> a == b;
+}
+use vsd::*;
+// everything the reader still holds, as text: trimmed
+//@@ fn expr.read_to_eof = src/sorters.rs :: fn read_to_eof
+//@@ safety C18 C05 C13
+//@@ ret res
+//@@ rewrite try_io trim_to_string
+//@@ header
+    requires old(r).wf(), old(r).room(),
+    ensures final(r).wf(), final(r).room(),
+        // the rest of the option text — every pending byte, from the current one on, none skipped — as UTF-8 text, trimmed
+        res is Ok ==> (no_fault(old(r).pending()) && valid_utf8(unwrap_all(old(r).pending()))
+            && res->Ok_0@ == trim_of(text_of(unwrap_all(old(r).pending()))) && final(r).pending().len() == 0), // @obl EXPR.read_to_eof.whole_rest : C18 C13
+//@@ body-start
+    let ghost c = r.pending();
+    broadcast use ls::axiom_text_of;
+//@@ loop 1
+        invariant
+            r.wf(), r.room(), advance(c, r.pending()), current == r.cur(), c == old(r).pending(),
+            current is None ==> r.pending().len() == 0,
+            c.len() >= r.pending().len(),
+            no_fault(c.subrange(0, c.len() - r.pending().len())),
+            chars@ =~= unwrap_all(c.subrange(0, c.len() - r.pending().len())),
+        decreases r.pending().len(),
+//@@ loop-start 1
+        broadcast use ls::axiom_text_of;
+        let ghost k = c.len() - r.pending().len();
+        proof {
+            assert(r.pending() =~= c.subrange(k, c.len() as int));
+            if current is Some { assert(r.pending()[0] == r.cur()); assert(c[k] == current); }
+        }
+//@@ after "current = r.next()?;"
+            proof {
+                assert(r.pending() =~= c.subrange(k + 1, c.len() as int));
+                assert(c[k] == Some(ch));
+                assert(c.subrange(0, k + 1) =~= c.subrange(0, k).push(c[k]));
+                assert(unwrap_all(c.subrange(0, k)).push(ch) =~= unwrap_all(c.subrange(0, k + 1)));
+            }
+//@@ before "let str = String::from_utf8(chars)?;"
+            proof {
+                assert(r.pending().len() == 0);
+                assert(c.subrange(0, c.len() as int) =~= c);
+                assert(chars@ == unwrap_all(c));
+                assert(no_fault(c));
+            }
+//@@ after "let str = String::from_utf8(chars)?;"
+            proof { assert(str_bytes(str@) == unwrap_all(c)); assert(text_of(str_bytes(str@)) == str@); }
+//@@ endfn
+
+// the whole --sort-by text: white space, one expression of the shared grammar, then the direction word
+pub open spec fn sort_text(t: Seq<char>) -> Option<(Rc<dyn Get>, bool)> {
+    let p = text_pending(t);
+    let w = ws_run(p) as int;
+    match getter_at(p.subrange(w, p.len() as int)) {
+        Some(gn) => {
+            let q = unwrap_all(p.subrange(w + gn.1, p.len() as int));
+            let d = upper_of(trim_of(text_of(q)));
+            if !valid_utf8(q) { None }
+            else if d == ""@ || d == "ASC"@ { Some((gn.0, false)) }
+            else if d == "DESC"@ { Some((gn.0, true)) }
+            else { None }
+        },
+        None => None,
+    }
+}
+impl FromStr for Sorter {
+    type Err = SorterParserError;
+//@@ fn expr.sorter.from_str = src/sorters.rs :: impl FromStr for Sorter :: fn from_str
+//@@ safety C18 C13 C05 C07
+//@@ ret r
+//@@ rewrite try_io str_to_string to_uppercase_of as_str_of dir_to_string
+//@@ header
+        ensures
+            // the sort key is exactly the getter the shared expression reader builds from the option text (C13); what follows the
+            // expression is, after trimming and upper-casing, nothing or ASC (ascending), or DESC (descending); ANY other word is an
+            // error (C18: unknown sort direction)
+            r is Ok ==> (sort_text(s@) matches Some(gd) && gd.0 == r->Ok_0.g() && gd.1 == r->Ok_0.desc()), // @obl EXPR.sorter.text : C18 C13 C07
+//@@ after "let mut reader = from_string(&source);"
+        let ghost p = text_pending(s@);
+        let ghost w = ws_run(p) as int;
+        proof { assert(reader.pending() =~= p); }
+//@@ after#1 "reader.eat_whitespace()?;"
+        proof { assert(reader.pending() =~= p.subrange(w, p.len() as int)); }
+//@@ after "let sort_by = read_getter(&mut reader)?;"
+        let ghost gn = getter_at(p.subrange(w, p.len() as int))->0;
+        proof { assert(reader.pending() =~= p.subrange(w + gn.1, p.len() as int)); }
+//@@ before "let direction = match"
+        broadcast use axiom_str_ext;
+        proof {
+            reveal_strlit(""); reveal_strlit("ASC"); reveal_strlit("DESC");
+        }
+//@@ endfn
+}
+}
+
 // ---- --set: PreSet::from_str (src/pre_sets.rs): NAME=value, @NAME=macro
 pub mod preset_m {
 use vstd::prelude::*;
